@@ -389,4 +389,14 @@ def localValid (dim : Nat) (lmin : Int) (c : List (LV × Int)) : Bool :=
   c.all (fun p => decide (p.1.length = dim) && p.1.all (fun x => decide (lmin ≤ x))) &&
   c.all (fun p => (belowList lmin p.1).all fun t => domSum c t == 1)
 
+/-! ## the flexible evaluation used by the error estimates -/
+
+/-- `evaluate_operation_area_complete_flexibel(area, coarsening, …)`: while the estimate is evaluated the area carries
+`coarseningValue = max(coarsening, 0)` (restored afterwards) and the component grids come from the scheme of level
+`lmax` if `coarsening ≥ 0`, else from `getCombiScheme(lmin, lmax + abs(coarsening))` ("beyond lmax").  The requested
+`coarsening` is any integer: `get_parent_split_operation` counts it down from the area's own value until the point
+numbers fit.  Result: `(coarseningValue read by coarsen_grid, lmax of the scheme used)`. -/
+def flexEval (lmax coarsening : Int) : Int × Int :=
+  (max coarsening 0, if coarsening ≥ 0 then lmax else lmax + (coarsening.natAbs : Int))
+
 end SparseSpace
